@@ -389,7 +389,7 @@ func TestC17Client(t *testing.T) {
 		}
 		steps := []scen.Step{{Op: "call", Calls: callers}, {Op: "await-requests", N: n}}
 		family := rapid.SampledFrom([]string{"errors", "errors", "migrate", "migrate-unconfigured"}).Draw(t, "family")
-		storageDown, otherMigrate := false, false
+		storageDown, otherMigrate, packedErr := false, false, false
 		order := scen.Permute(s, tags)
 		switch family {
 		case "errors":
@@ -412,6 +412,11 @@ func TestC17Client(t *testing.T) {
 					code := int32(rapid.SampledFrom([]int{303, 400, 401, 420, 500, -503}).Draw(t, "code"))
 					it.ErrCode, it.ErrText = code, text
 					c.Errors[tg] = Case{Code: code, Text: text}
+					if rapid.IntRange(0, 2).Draw(t, "packed-error") == 0 {
+						// a server may compress any object, an rpc_error too
+						it.Gzip, it.GzipStyle = true, rapid.IntRange(0, 4).Draw(t, "gzip-style")
+						packedErr = true
+					}
 				}
 				steps = append(steps, scen.Step{Op: "answer", Container: rapid.Bool().Draw(t, "container"), Items: []scen.AnsItem{it}})
 			}
@@ -436,7 +441,11 @@ func TestC17Client(t *testing.T) {
 				steps = append(steps, scen.Step{Op: "store-fault", N: 1000})
 				storageDown = true
 			}
-			steps = append(steps, scen.Step{Op: "answer", Items: []scen.AnsItem{{Tag: c.Migrate, ErrCode: mcode, ErrText: fmt.Sprintf("PHONE_MIGRATE_%d", c.DC)}}})
+			mig := scen.AnsItem{Tag: c.Migrate, ErrCode: mcode, ErrText: fmt.Sprintf("PHONE_MIGRATE_%d", c.DC)}
+			if rapid.IntRange(0, 2).Draw(t, "packed-migrate") == 0 {
+				mig.Gzip, packedErr = true, true
+			}
+			steps = append(steps, scen.Step{Op: "answer", Items: []scen.AnsItem{mig}})
 			if c.Configured {
 				steps = append(steps, scen.Step{Op: "await-requests", N: n}) // repeated at dc-7: again n unanswered
 				for _, tg := range order {
@@ -462,6 +471,9 @@ func TestC17Client(t *testing.T) {
 		}
 		if otherMigrate {
 			cls = append(cls, "client:other-migrate-error-naming-a-configured-data-centre")
+		}
+		if packedErr {
+			cls = append(cls, "client:rpc_error-inside-gzip_packed")
 		}
 		run.Case(verdict != "inconclusive", evid.Hash(b, len(sc.RPC.OtherClientDCs)), cls...)
 		if err != nil {
